@@ -449,28 +449,28 @@ Proof.
   unfold fits. norm_kind KUint. unfold64. split_cmps; cbn; try reflexivity; exfalso; lia.
 Qed.
 
-(* shiftConstError for an integer count in the int64 representation *)
-Theorem shift_count_i64 o n : in64 n ->
-  shift_const_error o (Num (I64 n)) =
-    if n <? 0 then Some EShiftNeg
-    else match o with
-         | OShl => if 512 <=? n then Some EShiftLarge else None
-         | _ => None
-         end.
+(* shiftConstError for an integer count in the int64 representation: counts
+   above 1074 are rejected for both shifts, left shift counts from 512 on
+   unless the left operand is zero *)
+Definition count_error (o : op) (zero1 : bool) (n : Z) : option err :=
+  if (match o with OShl => negb zero1 | _ => false end) && (512 <=? n) then Some EShiftLarge
+  else if 1074 <? n then Some EShiftLarge
+  else None.
+
+Theorem shift_count_i64 o zero1 n : in64 n ->
+  shift_const_error o zero1 (Num (I64 n)) =
+    if n <? 0 then Some EShiftNeg else count_error o zero1 n.
 Proof.
   intros Hn. unfold shift_const_error. rewrite (repr_uint_i64 n Hn).
   destruct (Z.leb_spec 0 n), (Z.ltb_spec n 0); try lia; reflexivity.
 Qed.
 
 (* a count that does not fit uint *)
-Theorem shift_count_big o n :
-  shift_const_error o (Num (Big n)) =
+Theorem shift_count_big o zero1 n :
+  shift_const_error o zero1 (Num (Big n)) =
     if n <? 0 then Some EShiftNeg
     else if maxu64 <? n then Some EShiftOvfUint
-    else match o with
-         | OShl => if 512 <=? n then Some EShiftLarge else None
-         | _ => None
-         end.
+    else count_error o zero1 n.
 Proof.
   unfold shift_const_error. cbn [repr repr_rc]. rewrite repr_big_int by reflexivity.
   unfold fits. norm_kind KUint. unfold int_norm. change maxu64 with 18446744073709551615.
@@ -482,25 +482,60 @@ Proof.
     cbn [bind]. destruct (is_int64 n); reflexivity.
 Qed.
 
+Lemma count_error_small o zero1 n : n < 512 -> count_error o zero1 n = None.
+Proof.
+  intros H. unfold count_error.
+  replace (512 <=? n) with false by (symmetry; apply Z.leb_gt; lia).
+  replace (1074 <? n) with false by (symmetry; apply Z.ltb_ge; lia).
+  rewrite andb_false_r. reflexivity.
+Qed.
+
 Theorem shl_exact small z n : 0 <= n < 512 ->
   shift_int OShl small z (Num (I64 n)) =
     if Z.abs (z * 2 ^ n) <? 2 ^ 512 then Ok (Num (Big (z * 2 ^ n))) else Err EShlOverflow.
 Proof.
   intros Hn. unfold shift_int. rewrite shift_count_i64 by (unfold64; lia).
   replace (n <? 0) with false by (symmetry; apply Z.ltb_ge; lia).
-  replace (512 <=? n) with false by (symmetry; apply Z.leb_gt; lia).
+  rewrite count_error_small by lia.
   cbn [cst_uint rc_uint].
   destruct (Z.ltb_spec (Z.abs (z * 2 ^ n)) (2 ^ 512)) as [H|H].
   - apply big_overflow_false in H. rewrite H. reflexivity.
   - apply big_overflow_true in H. rewrite H. reflexivity.
 Qed.
 
-Theorem shl_count_limit small z n : 512 <= n -> in64 n ->
+(* a non-zero value shifted left by 512 or more: the count is rejected *)
+Theorem shl_count_limit small z n : z <> 0 -> 512 <= n -> in64 n ->
   shift_int OShl small z (Num (I64 n)) = Err EShiftLarge.
+Proof.
+  intros Hz Hn H64. unfold shift_int. rewrite shift_count_i64 by assumption.
+  replace (n <? 0) with false by (symmetry; apply Z.ltb_ge; lia).
+  unfold count_error. replace (z =? 0) with false by (symmetry; apply Z.eqb_neq; assumption).
+  replace (512 <=? n) with true by (symmetry; apply Z.leb_le; lia). reflexivity.
+Qed.
+
+(* zero shifted left: every count up to 1074 is accepted and gives zero,
+   larger counts are rejected (0 << 512 was rejected before fix d3683c7) *)
+Theorem shl_zero small n : 0 <= n -> in64 n ->
+  shift_int OShl small 0 (Num (I64 n)) =
+    if n <=? 1074 then Ok (Num (Big 0)) else Err EShiftLarge.
 Proof.
   intros Hn H64. unfold shift_int. rewrite shift_count_i64 by assumption.
   replace (n <? 0) with false by (symmetry; apply Z.ltb_ge; lia).
-  replace (512 <=? n) with true by (symmetry; apply Z.leb_le; lia). reflexivity.
+  unfold count_error. cbn [Z.eqb negb andb].
+  destruct (Z.leb_spec n 1074).
+  - replace (1074 <? n) with false by (symmetry; apply Z.ltb_ge; lia). reflexivity.
+  - replace (1074 <? n) with true by (symmetry; apply Z.ltb_lt; lia). reflexivity.
+Qed.
+
+(* for every shift a count above 1074 is rejected (1 >> 2000 was accepted before fix d3683c7) *)
+Theorem shift_count_max o small z n : is_shift o = true -> 1074 < n -> in64 n ->
+  shift_int o small z (Num (I64 n)) = Err EShiftLarge.
+Proof.
+  intros Ho Hn H64. unfold shift_int. rewrite shift_count_i64 by assumption.
+  replace (n <? 0) with false by (symmetry; apply Z.ltb_ge; lia).
+  unfold count_error.
+  replace (1074 <? n) with true by (symmetry; apply Z.ltb_lt; lia).
+  destruct (_ && _); reflexivity.
 Qed.
 
 Theorem shift_negative_count o small z n : is_shift o = true -> n < 0 -> in64 n ->
@@ -510,14 +545,38 @@ Proof.
   replace (n <? 0) with true by (symmetry; apply Z.ltb_lt; lia). reflexivity.
 Qed.
 
-(* >> is the floor division by 2^n, for every count that fits uint *)
-Theorem shr_exact small z n : 0 <= n -> in64 n ->
+(* >> is the floor division by 2^n, for every count that fits uint; the
+   result of the big representation is rejected beyond 512 bits (only
+   possible when the operand itself, a float or rational constant with an
+   integer value, is beyond 512 bits) *)
+Theorem shr_exact small z n : 0 <= n <= 1074 ->
   shift_int OShr small z (Num (I64 n)) =
-    Ok (Num (if small then I64 (z / 2 ^ n) else Big (z / 2 ^ n))).
+    if small then Ok (Num (I64 (z / 2 ^ n)))
+    else if Z.abs (z / 2 ^ n) <? 2 ^ 512 then Ok (Num (Big (z / 2 ^ n))) else Err EShlOverflow.
 Proof.
-  intros Hn H64. unfold shift_int. rewrite shift_count_i64 by assumption.
+  intros Hn. unfold shift_int. rewrite shift_count_i64 by (unfold64; lia).
   replace (n <? 0) with false by (symmetry; apply Z.ltb_ge; lia).
-  cbn [cst_uint rc_uint]. rewrite shr_spec by assumption. destruct small; reflexivity.
+  unfold count_error. cbn [andb].
+  replace (1074 <? n) with false by (symmetry; apply Z.ltb_ge; lia).
+  cbn [cst_uint rc_uint]. rewrite shr_spec by lia. destruct small; [reflexivity|].
+  destruct (Z.ltb_spec (Z.abs (z / 2 ^ n)) (2 ^ 512)) as [H|H].
+  - apply big_overflow_false in H. rewrite H. reflexivity.
+  - apply big_overflow_true in H. rewrite H. reflexivity.
+Qed.
+
+(* an operand below 512 bits is never rejected by >> *)
+Theorem shr_no_overflow z n : 0 <= n <= 1074 -> Z.abs z < 2 ^ 512 ->
+  shift_int OShr false z (Num (I64 n)) = Ok (Num (Big (z / 2 ^ n))).
+Proof.
+  intros Hn Hz. rewrite shr_exact by assumption.
+  assert (0 < 2 ^ n) by (apply Z.pow_pos_nonneg; lia).
+  replace (Z.abs (z / 2 ^ n) <? 2 ^ 512) with true; [reflexivity|].
+  symmetry. apply Z.ltb_lt.
+  assert (- 2 ^ 512 < z / 2 ^ n < 2 ^ 512); [|lia].
+  split.
+  - apply Z.lt_le_trans with (m := - 2 ^ 512 + 1); [lia|].
+    apply Z.div_le_lower_bound; [lia|]. nia.
+  - apply Z.div_lt_upper_bound; [lia|]. nia.
 Qed.
 
 Lemma shr_in64 z n : 0 <= n -> in64 z -> in64 (z / 2 ^ n).
